@@ -790,8 +790,10 @@ class Interp:
                 val = 0
             elif st.F.prove_cond(c):
                 val = 1
+                st.F.add_cond(c)
             elif st.F.refute_cond(c):
                 val = 0
+                st.F.add_cond(neg_cond(c))
             else:
                 val = None
             false_t = None
